@@ -194,3 +194,36 @@ Definition C12_tcp_termination_full_statement : Prop :=
   (forall i, (i < 3)%nat -> (length sA + length sB + 8 <= count_occ Nat.eq_dec sched i)%nat) ->
   sh_ret (fst (tcp_run_w cfgA cfgB sA sB cutsA cutsB endA endB wdA wdB
                  (sched ++ concat (repeat [0; 1; 2]%nat (length sA + length sB + 8))))) = true.
+
+(* ---- UDP -> tunnel: who owns batchBuf.  The main loop (thread 0: Lock / read one datagram and frame it in place,
+   with the size flushes / Unlock / final flush) and the 20 ms ticker goroutine (thread 1: Lock / take
+   batchBuf[:batchPos] / tunnelConn.Write returns / Unlock) over the real in-place buffer; own_run late ds sched is
+   the state after ANY schedule.  late = false is the code: the slice handed to the tunnel stays owned by the lock
+   holder until Write has returned. ---- *)
+
+(* under every schedule the bytes the tunnel has consumed are a prefix of the framed datagrams in arrival order, and
+   once the main loop is done they are exactly all of them — whatever the ticker does, however long its Write takes *)
+Theorem C12_udp_batch_buffer_owned_until_write_returns :
+  forall (ds : list dgram) (sched : list nat),
+  let s := own_run false ds sched in
+  (exists rest_, encode_all (ev_dgrams (map EvD ds)) = b_out (fst s) ++ rest_) /\
+  (forall p1, snd s = [(0%nat, BDone); (1%nat, p1)] -> b_out (fst s) = encode_all (ev_dgrams (map EvD ds))).
+Proof. exact c12_own_stream. Qed.
+Print Assumptions C12_udp_batch_buffer_owned_until_write_returns.
+
+(* the variant whose timed flush unlocks BEFORE its tunnel Write has returned (the slice aliases batchBuf): a schedule
+   in which "BB" arrives while the Write of "AA" is stalled — the tunnel receives BB BB *)
+Theorem C12_udp_late_write_variant_refuted :
+  let s := own_run true [[65; 65]; [66; 66]] late_sched in
+  snd s = [(0%nat, BDone); (1%nat, BIdle)] /\
+  b_out (fst s) = [0; 2; 66; 66; 0; 2; 66; 66] /\
+  b_out (fst s) <> encode_all (ev_dgrams (map EvD [[65; 65]; [66; 66]])).
+Proof. exact c12_own_late_write_refuted. Qed.
+Print Assumptions C12_udp_late_write_variant_refuted.
+
+(* non-vacuity: the same arrival pattern on the code as it is *)
+Theorem C12_udp_same_schedule_locked_ok :
+  let s := own_run false [[65; 65]; [66; 66]] (late_sched ++ [1; 0; 0; 0; 0; 0; 0]%nat) in
+  snd s = [(0%nat, BDone); (1%nat, BIdle)] /\ b_out (fst s) = [0; 2; 65; 65; 0; 2; 66; 66].
+Proof. exact c12_own_same_schedule_ok. Qed.
+Print Assumptions C12_udp_same_schedule_locked_ok.
